@@ -45,23 +45,27 @@ def _solve_lp(objective: np.ndarray, a_ub: np.ndarray, b_ub: np.ndarray, tight_o
     equalities in two unknowns): its presolve, and sometimes the solver proper, then answers "infeasible" or gives up.
     An answer other than "optimal" or "unbounded" is therefore not believed before the problem has been tried again
     without the presolve and, unless the caller needs an optimum computed with the tight tolerances, with the
-    solver's default tolerances.
+    solver's default tolerances. The callers that need such an optimum (the redundancy and containment tests) maximise
+    a row that is itself among the constraints: their problem is bounded, and the presolve's occasional "unbounded" is
+    not believed either.
 
     Args:
         objective: the coefficients to minimize.
         a_ub: constraint matrix.
         b_ub: constraint bounds.
-        tight_only: only accept answers computed with the tight tolerances.
+        tight_only: the problem is bounded by construction and its optimum is needed at the tight tolerances.
 
     Returns:
-        The solver's result: the first that is "optimal" or "unbounded", otherwise the last one.
+        The solver's result: the first that is "optimal" (or "unbounded", unless tight_only), otherwise the last one.
     """
     res = linprog(c=objective, A_ub=a_ub, b_ub=b_ub, bounds=(None, None), options=LP_OPTIONS)
     retries = [dict(LP_OPTIONS, presolve=False)]
+    accepted = {0}
     if not tight_only:
         retries = retries + [{}, {"presolve": False}]
+        accepted = {0, 3}
     for options in retries:
-        if res["status"] in {0, 3}:
+        if res["status"] in accepted:
             break
         res = linprog(c=objective, A_ub=a_ub, b_ub=b_ub, bounds=(None, None), options=options)
     return res
